@@ -2,7 +2,7 @@ import os
 from vlib import core, e1
 
 OPS = dict(END=0, CREATE=1, TCREATE0=2, TCREATE1=3, ATTACH=4, INFL_MSG=5, INFL_READ=6, INFL_TIMER=7,
-           SHUT=8, SHUT_B=9, SHUT_W=10, WAIT=11, DESTROY=12, QUIESCE=13)
+           SHUT=8, SHUT_B=9, SHUT_W=10, WAIT=11, DESTROY=12, QUIESCE=13, INFL_BUSY=14, GATE_B=15)
 FAULTS_CREATE = 'SC_F_CALLOC|SC_F_EPOLL_CREATE|SC_F_PIPE2|SC_F_EPOLL_CTL|SC_F_PTHREAD_CREATE'
 
 
@@ -43,6 +43,14 @@ def scripts():
                         ops.append('DESTROY')
                         name = 'life/W%d/%s/%s/%s/%s' % (W, start, infl, shut.replace(',', '+'), wait.replace(',', '+'))
                         out.append((name, W, '0', ops))
+    # a callback is still working (parked on a gate) when the pool is shut down; another thread lets it finish at any time
+    for W in (1, 2):
+        for shut in ('SHUT', 'SHUT_B,SHUT', 'none'):
+            for wait in ('WAIT', 'none'):
+                if shut == 'none' and wait != 'none':
+                    continue
+                ops = ['CREATE', 'TCREATE0', 'INFL_BUSY', 'QUIESCE', 'GATE_B'] + ([] if shut == 'none' else shut.split(',')) + ([] if wait == 'none' else [wait]) + ['DESTROY']
+                out.append(('busy/W%d/%s/%s' % (W, shut.replace(',', '+'), wait), W, '0', ops))
     # resource failures during creation / thread start (fault menu: each call may fail; bound = number of failures)
     for W in (1, 2):
         out.append(('fail/W%d/create-only' % W, W, FAULTS_CREATE, ['CREATE', 'DESTROY']))
@@ -68,6 +76,9 @@ def plan(tier, vs):
         f = name.split('/')
         if f[0] == 'fail':
             jobs.append((name, 1 if tier == 'quick' else 2, 0 if tier == 'quick' else 1))
+            continue
+        if f[0] == 'busy':
+            jobs.append((name, 2 if tier == 'quick' else 3, 1 if tier == 'quick' else 2))
             continue
         start, infl, shut, wait = f[2], f[3], f[4], f[5]
         if tier == 'quick':
